@@ -201,3 +201,79 @@ def c15_mergekeep(R):
         )
     if n == 0:
         R.ok(m, fn, "merge: the merged remainder is not filed with _store_child")
+
+
+@rule(
+    "C09.compsimpl",
+    props=("C09", "C12"),
+    floor=2,
+    family="PAIR",
+    desc="SolverComposite.simplify rebuilds its constraint list from its children: every way through one round of the "
+    "loop over the children (the early `continue` for an already simplified child included) adds that child's constraints "
+    "to the list that becomes self.constraints",
+)
+def c09_compsimpl(R):
+    tree = R.tree
+    m = tree.mod(CF)
+    cls = tree.cls(CF, "SolverComposite") if "SolverComposite" in m.classes else tree.cls(CF, "CompositeFrontend")
+    fn = tree.func_inlined(CF, f"{cls.name}.simplify", exclude=("_split_child", "_store_child", "_claim"))
+    accs = {ast.unparse(st.value) for st in walk_no_nested(fn) if isinstance(st, ast.Assign) and len(st.targets) == 1 and ast.unparse(st.targets[0]) == "self.constraints" and isinstance(st.value, ast.Name)}
+    R.need(len(accs) == 1, "simplify: `self.constraints = <list>` not found")
+    acc = next(iter(accs))
+    loops = [st for st in walk_no_nested(fn) if isinstance(st, ast.For) and "_solver_list" in ast.unparse(st.iter) and isinstance(st.target, ast.Name)]
+    R.need(len(loops) == 1, "simplify: loop over the children not found")
+    loop = loops[0]
+    v = loop.target.id
+
+    def feeds(st):
+        if isinstance(st, ast.AugAssign) and ast.unparse(st.target) == acc and isinstance(st.op, ast.Add):
+            return any(isinstance(x, ast.Name) and x.id == v for x in ast.walk(st.value))
+        if isinstance(st, ast.Expr) and isinstance(st.value, ast.Call) and isinstance(st.value.func, ast.Attribute) and st.value.func.attr in ("extend", "append") and ast.unparse(st.value.func.value) == acc:
+            return any(isinstance(x, ast.Name) and x.id == v for a in st.value.args for x in ast.walk(a))
+        return False
+
+    def before(node):
+        """statements that certainly ran before `node` in this round: earlier siblings, up to the loop body"""
+        out = []
+        child, par = node, getattr(node, "_parent", None)
+        while par is not None:
+            for fld in ("body", "orelse"):
+                b = getattr(par, fld, None)
+                if isinstance(b, list) and child in b:
+                    out += b[: b.index(child)]
+            if par is loop:
+                break
+            child, par = par, getattr(par, "_parent", None)
+        return out
+
+    n = 0
+    exits = [st for st in ast.walk(loop) if isinstance(st, ast.Continue) and not any(isinstance(p, (ast.For, ast.While)) and p is not loop for p in _ancestors(st, loop))]
+    for ex in exits:
+        n += 1
+        R.check(
+            any(feeds(st) for st in before(ex)),
+            m,
+            ex,
+            "a child that is skipped still contributes its constraints",
+            f"{cls.name}.simplify leaves a round of the loop over the children with `continue` without adding `{v}.constraints` to "
+            f"`{acc}`: self.constraints loses that child's constraints (solving through the children stays right, combine(), "
+            f"pickling and everything built from .constraints is wrong - after simplify() the set shrank to one group)",
+            construct="simplify: skipped child not carried over",
+        )
+    n += 1
+    R.check(
+        any(feeds(st) for st in loop.body),
+        m,
+        loop,
+        "a simplified child contributes its constraints",
+        f"{cls.name}.simplify does not add `{v}.constraints` to `{acc}` at the end of a round",
+        construct="simplify: simplified child not carried over",
+    )
+    R.need(n >= 1, "simplify: nothing examined")
+
+
+def _ancestors(node, stop):
+    p = getattr(node, "_parent", None)
+    while p is not None and p is not stop:
+        yield p
+        p = getattr(p, "_parent", None)
